@@ -150,7 +150,8 @@ PROPS = {
                  "capturing RoundTripper (RemoteAddr and r.TLS generated) and over real plain/TLS sockets incl. 'Upgrade: websocket|Websocket' tunnels to a recording raw upstream. Oracle from the statement: custom "
                  "client-IP header == [peer]; last X-Forwarded-For element == peer; X-Real-Ip == peer unless sent; TLS header == [value] iff TLS; X-Forwarded-Proto/Forwarded generated when absent and naming the real "
                  "scheme and peer, derived from the other when exactly one was sent, never overwritten; X-Forwarded-Port = port of the Host the client asked for else 443/80 by TLS; X-Forwarded-Host = the client's Host "
-                 "even under host=; HSTS iff TLS and max-age>0 with the configured directives. Non-trivial = request forges >=1 managed header or the route rewrites Host."),
+                 "even under host=; HSTS iff TLS and max-age>0 with the configured directives. Non-trivial = request forges >=1 managed header or the route rewrites Host. Listener form: the same scenarios through fabio's own listeners (proxy.ListenAndServeHTTP with and without TLS, the https side of ListenAndServeHTTPSTCPSNI), each with the PROXY-protocol option "
+                 "off and on; with the option on (http/https) the client may announce another peer in a PROXY v1 line, which is then the real peer."),
         "technique": "rapid property tests of the forwarding-header contract with a capturing transport and real plain/TLS/websocket sockets",
         "level_text": "Generated client header sets and connection properties are sent through fabio's HTTP handler and the headers that reach the upstream are checked against the stated contract, directly and over real sockets. Exploration only.",
         "level_note": "When the configured client-IP header is X-Real-Ip or X-Forwarded-For the dedicated rules for those headers apply (the statement's two sentences overlap there). Forwarded is checked for 'for=<peer>' and 'proto=' content, not for RFC 7239 syntax.",
@@ -314,7 +315,8 @@ PROPS = {
                  "with optional :80/:443/:other port, TLS on/off, paths extended/truncated/case-flipped; all three matchers, glob matching on and off, both pickers, small glob caches; "
                  "plus LookupHost for tcp/sni names. Oracle: brute-force reference ranking (exact > wildcard by literal suffix length > host-less; longest path within a host; "
                  "ties between equally ranked hosts accepted); routed iff a candidate exists. Non-trivial = the request has candidates on >=2 different (host rank, path length) levels; "
-                 "distinct by hash of (table text, request)."),
+                 "distinct by hash of (table text, request). Every-pick sub-check: a most specific route with 2-5 targets and fixed weights (incl. < 0.0001) next to less specific ones is looked up for a full round-robin cycle (+3) and for every slot the random picker "
+                 "can draw: each answer is non-nil and a target of the most specific route."),
         "technique": "rapid property test, differential against a brute-force reference ranking model",
         "level_text": "Every generated (table, request) is looked up with fabio's Table.Lookup/LookupHost and compared against an independent brute-force model of the specificity order in both directions (routed iff a candidate exists; the answer belongs to a top-ranked candidate). Exploration only.",
         "level_note": "Glob path specificity is asserted only for literal and literal+'*' patterns; wildcard hosts are generated as '*' and '*.suffix[:port]'. Ties between equally specific host patterns (e.g. foo.com and foo.com:80) accept either.",
